@@ -564,6 +564,125 @@ def r06_7(ctx, prog, crate):
               "unsafe Send/Sync impls in the pool module: %s" % unsafe, "src/util/thread/pool.rs", detail=unsafe)
 
 
+class SpawnModel:
+    """How `spawn` starts workers, in either idiom: `threads.extend((first..last).map(|id| { ..; sender }))` (starter =
+    the map closure) or `for id in first..last { ..; threads.push(sender) }` (starter = spawn itself, one loop iteration).
+    Fields: form, starter (body), ok_shape, why, channel (call), thread_spawn (call), worker_caps (direct places of the
+    worker closure's captures), id_place (the place holding this worker's id in the starter), sender_goes_to_list (bool),
+    range_start (canonical expression of the first id), extra_sources (anything but map between the range and the list)."""
+
+    def __init__(self, prog, crate):
+        from lib.symexpr import Sym
+        self.ok_shape, self.why = False, "spawn not found"
+        sp = self.sp = prog.body(POOL + "spawn", crate)
+        if sp is None:
+            return
+        S = Sym(sp, site_args=True)
+        tl = "param:" + sp.param_name(2)
+        app = [c for c in sp.live_calls() if c.callee.endswith(("::extend", "Vec::push", "::extend_from_slice", "Vec::insert", "::append")) and
+               any(z.label() == tl for z in sp.prov.op_src(c.args[0]))]
+        self.appends = app
+        self.channel = self.thread_spawn = None
+        self.worker_caps, self.id_place, self.range_start, self.sender_goes_to_list = [], None, None, False
+        if len(app) != 1:
+            self.why = "spawn appends to the sender list %d times" % len(app)
+            return
+        a = app[0]
+        if a.callee.endswith("::extend") and not sp.loops:
+            self.form = "map"
+            e = S.op(a.args[1])
+            if not (e[0] == "site" and e[1] == "std::iter::Iterator::map" and len(e[3]) == 2 and e[3][0][0] == "adt" and e[3][0][1] in ("std::ops::Range",)):
+                self.why = "the senders appended by spawn come from %s; expected (threads.len()+1 ..).map(<start a worker>) and no other adaptor or source" % (e[:2],)
+                return
+            self.range_start = e[3][0][3][0]
+            cl = [x for x in prog.children(sp) if x.kind == "Closure"]
+            if len(cl) != 1:
+                self.why = "closures of spawn: %d" % len(cl)
+                return
+            st = self.starter = cl[0]
+            blocks = set(st.live)
+            self.id_place = ("place", 2, ())
+            ret = direct_place(st, {"k": "move", "p": {"l": 0, "proj": [], "ty": ""}})
+            ch = [c for c in st.live_calls() if c.callee in ("std::sync::mpsc::sync_channel", "std::sync::mpsc::channel")]
+            self.channels = ch
+            self.sender_goes_to_list = len(ch) == 1 and ret == ("place", ch[0].dest["l"], (0,))
+            self.sender_desc = ret
+        elif a.callee.endswith("Vec::push") and len(sp.loops) == 1:
+            self.form = "loop"
+            lp = sp.loops[0]
+            st = self.starter = sp
+            blocks = set(lp["body"])
+            if a.bb not in blocks or not sp.once_per_iteration(a.bb, lp):
+                self.why = "the push of the sender is not executed exactly once per loop iteration"
+                return
+            nx = [c for c in sp.live_calls() if c.bb in blocks and c.callee.endswith("::next") and "range" in c.callee.lower() or (c.bb in blocks and c.callee == "std::iter::range::next")]
+            if len(nx) != 1:
+                self.why = "the loop of spawn is not a loop over an id range"
+                return
+            it = S.op(nx[0].args[0])
+            while it[0] in ("ptr", "sptr") and False:
+                pass
+            rng = None
+            for bi, si, s_ in sp.stmts():
+                if s_["k"] == "assign" and s_["rv"]["k"] == "agg" and s_["rv"]["ak"] == "adt" and norm(s_["rv"]["adt"]) == "std::ops::Range" and bi not in blocks:
+                    rng = S.rv(s_["rv"])
+            if rng is None:
+                self.why = "no id range is built before the loop of spawn"
+                return
+            self.range_start = rng[3][0]
+            # the loop item: payload of next()
+            item = None
+            for bi, si, s_ in sp.stmts():
+                if bi in blocks and s_["k"] == "assign" and s_["rv"]["k"] == "use" and s_["rv"]["o"]["k"] in ("copy", "move") and s_["rv"]["o"]["p"]["l"] == nx[0].dest["l"] and \
+                        any(pr["k"] == "downcast" for pr in s_["rv"]["o"]["p"]["proj"]):
+                    item = direct_place(sp, {"k": "copy", "p": {"l": s_["p"]["l"], "proj": [], "ty": s_["p"].get("ty", "")}}) or ("place", s_["p"]["l"], ())
+            self.id_place = item
+            ch = [c for c in sp.live_calls() if c.bb in blocks and c.callee in ("std::sync::mpsc::sync_channel", "std::sync::mpsc::channel")]
+            self.channels = ch
+            pushed = direct_place(sp, a.args[1])
+            self.sender_goes_to_list = len(ch) == 1 and pushed == ("place", ch[0].dest["l"], (0,))
+            self.sender_desc = pushed
+        else:
+            self.why = "spawn appends with %s%s" % (a.callee.rsplit("::", 1)[-1], " in %d loops" % len(sp.loops) if sp.loops else "")
+            return
+        self.blocks = blocks
+        self.channel = self.channels[0] if len(self.channels) == 1 else None
+        spn = [c for c in st.live_calls() if c.bb in blocks and (c.callee == "std::thread::Builder::spawn" or c.callee == "std::thread::spawn")]
+        self.thread_spawns = spn
+        self.thread_spawn = spn[0] if len(spn) == 1 else None
+        for bi, si, s_ in st.stmts():
+            if bi in blocks and s_["k"] == "assign" and s_["rv"]["k"] == "agg" and s_["rv"]["ak"] == "closure":
+                wb = prog.bodies.get((st.crate, norm(s_["rv"]["def"]), -1))
+                if wb is not None and any(c.callee == "std::sync::mpsc::Receiver::recv" for c in wb.live_calls()):
+                    self.worker_caps.append([direct_place(st, o) for o in s_["rv"]["ops"]])
+        self.ok_shape, self.why = True, ""
+
+
+def r06_9(ctx, prog, crate):
+    """Position p of the sender list belongs to the worker with index p+1 (broadcast_task sends to threads[..n] and counts
+    on it): spawn appends the ids threads.len()+1.. in order - mapped by nothing but Iterator::map, or pushed once per
+    iteration of a loop over that range - and what it appends for an id is the sender half of the channel whose
+    receiver half, together with that id, is what the worker it starts captures."""
+    m = SpawnModel(prog, crate)
+    if not ctx.anchor("R06.9", "spawn", 1 if m.sp else 0, 1):
+        return
+    ctx.saw(m.sp)
+    if not ctx.check(m.ok_shape, "R06.9", ["spawn", "senders-in-id-order"], m.why + " (the order of arrival of anything else is not the order of the ids)", m.sp.where(0)):
+        return
+    ctx.saw(m.starter)
+    start = m.range_start
+    ok = start is not None and start[0] == "lin" and start[2] == 1 and len(start[1]) == 1 and start[1][0][1] == 1 and start[1][0][0][0] == "call" and \
+        start[1][0][0][1] == "std::vec::Vec::len" and start[1][0][0][2] == (("arg", 2, ()),)
+    ctx.check(ok, "R06.9", ["spawn", "first-id-is-len-plus-one"], "the first new id is %s, expected threads.len() + 1" % (start,), m.sp.where(0))
+    ctx.check(m.sender_goes_to_list, "R06.9", ["worker-starter", "returns-its-own-sender"],
+              "what is appended for a new worker is %s, expected the sender half of the channel created for it" % (m.sender_desc,), m.starter.where(0))
+    ok = len(m.worker_caps) == 1 and m.channel is not None and ("place", m.channel.dest["l"], (1,)) in m.worker_caps[0] and m.id_place in m.worker_caps[0]
+    ctx.check(ok, "R06.9", ["worker-starter", "worker-gets-own-receiver-and-id"],
+              "the worker closure captures %s, expected the receiver half of the same channel and this worker's id" % (m.worker_caps,), m.starter.where(0))
+    ctx.check(m.thread_spawn is not None and len(m.worker_caps) == 1, "R06.9", ["worker-starter", "starts-one-worker"],
+              "a new id starts %d threads (worker closures: %d)" % (len(m.thread_spawns), len(m.worker_caps)), m.starter.where(0))
+
+
 def r06_8(ctx, prog, crate):
     """The type-erased hop hands the index through unchanged, once: Task::run(thread_id) makes exactly one call - the
     function pointer stored in its own task block, with that block and thread_id - and the stored pointer is the
@@ -626,6 +745,7 @@ def r06_8(ctx, prog, crate):
 
 def run(ctx, prog, crate):
     r06_8(ctx, prog, crate)
+    r06_9(ctx, prog, crate)
     r06_1(ctx, prog, crate)
     r06_2(ctx, prog, crate)
     r06_3(ctx, prog, crate)
